@@ -633,10 +633,11 @@ class PCACDDriver(Driver):
         self.stack.enter_context(rebind(M, StandardScaler=Scaler, PCA=FakePCA))
 
     def make(self):
-        p = dict(window_size=self.cfg["window_size"], divergence_metric=self.cfg.get("metric", "intersection"),
-                 online_scaling=self.cfg.get("online_scaling", True), delta=self.ctx.real("ph_delta"),
-                 sample_period=self.cfg.get("sample_period", 0.5))
-        d = self.M.PCACD(**p)
+        if not hasattr(self, "params"):
+            self.params = dict(window_size=self.cfg["window_size"], divergence_metric=self.cfg.get("metric", "intersection"),
+                               online_scaling=self.cfg.get("online_scaling", True), delta=self.ctx.real("ph_delta"),
+                               sample_period=self.cfg.get("sample_period", 0.5))
+        d = self.M.PCACD(**self.params)
         rec = self.rec
 
         def hist(sample, bins, bin_range):
